@@ -10,6 +10,7 @@ structure St where
   info : Info
   ks : Wire.KeySet := { keys := [], idOffset := 0 }      -- byte mode: the server's key set (from the key file)
   table : Wire.Table := []                               -- byte mode: ideal-AEAD table of the case so far
+  counters : Counters := {}                              -- stream c21_counters: the daemon's ServerStats
 
 def initSt : St :=
   { cfg := { denyAct := .ignore, allowAct := .ignore, requireNts := none, versions := [3, 4, 5] },
@@ -194,6 +195,21 @@ def stepLine (st : St) (line : String) : St × String :=
       let flag := if d.isEmpty then "" else "record-mismatch:" ++ ",".intercalate d ++ " "
       ({ st with table := table }, flag ++ outLine st env own)
     | _, _, _ => (st, "bad-op")
+  | "reset" :: _ => ({ st with counters := {} }, "ok")
+  | "reg" :: _ =>
+    -- `ServerStats::register`: all eleven counters after the call
+    let reason? : Option Reason := match kv? ws "reason" with
+      | some "rate" => some .rate | some "parse" => some .parse | some "crypto" => some .crypto
+      | some "internal" => some .internal | some "policy" => some .policy | _ => none
+    let resp? : Option Resp := match kv? ws "resp" with
+      | some "nak" => some .nak | some "deny" => some .deny | some "ignore" => some .ignore
+      | some "time" => some .time | _ => none
+    match kvNat? ws "v", (kv? ws "nts").map (· == "1"), reason?, resp? with
+    | some v, some nts, some reason, some resp =>
+      let c := st.counters.add (countersOf ⟨v, nts, reason, resp⟩)
+      ({ st with counters := c },
+       s!"recv={c.received} acc={c.accepted} den={c.denied} ign={c.ignored} rl={c.rateLimited} se={c.sendErrors} nrecv={c.ntsReceived} nacc={c.ntsAccepted} nden={c.ntsDenied} nrl={c.ntsRateLimited} nnak={c.ntsNak}")
+    | _, _, _, _ => (st, "bad-op")
   | _ => (st, "bad-op")
 
 def main (_args : List String) : IO Unit := do
